@@ -39,9 +39,9 @@ fn random_event(r: &mut Rng, pool: &Pool, focus: &str) -> Ev {
     let npaths = pool.gens[0].len() as u32;
     let full = if npaths >= 32 { u32::MAX } else { (1 << npaths) - 1 };
     let w = match focus {
-        "C05" => [4, 1, 1, 3, 2, 1, 1, 0, 0, 7],
-        "C06" => [3, 2, 3, 3, 3, 3, 1, 1, 1, 6],
-        _ => [3, 1, 1, 3, 1, 1, 4, 2, 2, 6],
+        "C05" => [4, 1, 1, 3, 2, 1, 1, 0, 0, 7, 0, 0],
+        "C06" => [3, 2, 3, 3, 3, 3, 1, 1, 1, 6, 1, 2],
+        _ => [3, 1, 1, 3, 1, 1, 4, 2, 2, 6, 2, 3],
     };
     let total: u64 = w.iter().sum();
     let mut x = r.below(total);
@@ -68,6 +68,8 @@ fn random_event(r: &mut Rng, pool: &Pool, focus: &str) -> Ev {
         6 => Ev::IfaceDown { pos: r.usize(8), foreign: r.chance(1, 5) },
         7 => Ev::ConnDown { pos: r.usize(8) },
         8 => Ev::FirstHopDown { foreign: r.chance(1, 4) },
+        10 => Ev::IfaceDownBurst { pos: r.usize(8) },
+        11 => Ev::RepeatLast,
         _ => Ev::Send,
     }
 }
@@ -116,6 +118,30 @@ pub fn run(args: &Args, mon: &mut Mon) -> (String, Vec<&'static str>) {
         // the worker's first lookup happens at start (Advance(0)); in 4 of 5 histories the lookup
         // service already has paths by then
         let evs: Vec<Ev> = std::iter::once(Ev::LookupOk { generation: 0, mask: u32::MAX, strip: 0 }).filter(|_| i % 5 != 0).chain(std::iter::once(Ev::Advance(0.0))).chain((0..len).map(|_| random_event(&mut r, &pool, focus))).collect();
+        // C07: a directed family — an interface keeps being reported down for minutes, a lookup
+        // then brings paths the cache has not seen (some over that interface), and the path in use
+        // has to be replaced
+        let evs: Vec<Ev> = if focus == "C07" && i % 4 == 3 {
+            let np = pool.gens[0].len() as u32;
+            let full = if np >= 32 { u32::MAX } else { (1 << np) - 1 };
+            let mut e = vec![Ev::LookupOk { generation: 0, mask: (r.u32() | 1 | 1 << r.below(np.min(32) as u64)) & full, strip: 0 }, Ev::Advance(0.0), Ev::Send, Ev::IfaceDown { pos: r.usize(8), foreign: false }, Ev::Send];
+            for _ in 0..r.range(2, 12) {
+                e.push(Ev::Advance(*r.pick(&[11.0f64, 31.0, 61.0])));
+                e.push(Ev::RepeatLast);
+            }
+            e.push(Ev::LookupOk { generation: r.usize(2), mask: full, strip: 0 });
+            // the failure persists (and keeps being reported) right up to the next lookup
+            e.push(Ev::RepeatUntilLookup { step: *r.pick(&[11.0f64, 31.0, 61.0]), max: 200 });
+            e.push(Ev::Send);
+            // replace the path in use: report its interfaces one by one
+            for _ in 0..r.range(1, 4) {
+                e.push(if r.bool() { Ev::IfaceDown { pos: r.usize(8), foreign: false } } else { Ev::ConnDown { pos: r.usize(8) } });
+                e.push(Ev::Send);
+            }
+            e
+        } else {
+            evs
+        };
         let info = json!({"seed": seed, "index": i, "routes": all_routes(&pool).len()});
         let rt = tokio::runtime::Builder::new_current_thread().enable_all().build().unwrap();
         m.eval();
@@ -133,6 +159,9 @@ pub fn run(args: &Args, mon: &mut Mon) -> (String, Vec<&'static str>) {
             });
             local
         });
+        if i < 4 {
+            m.sample(|| json!({"policy": format!("{pol:?}"), "config": format!("{cfg:?}"), "routes": all_routes(&pool).len(), "events": evs.iter().take(14).map(|e| format!("{e:?}")).collect::<Vec<_>>()}));
+        }
         match out {
             Ok(local) => m.merge(local),
             // the manager's own debug assertion on handing out an expired path (debug builds)
